@@ -210,6 +210,132 @@ def _chunk_random(args):
     return ev, bad
 
 
+# ---- execution part of the stand-in: ppci-compiled code called by / calling a System V conforming party (libffi via ctypes) ------
+# Callee direction: C functions with generated signatures (char / short / int / long / float / double, 0..12 parameters)
+# are compiled by ppci for x86-64, loaded into memory and called through ctypes; each returns a position-weighted sum
+# of its parameters, so a misplaced, truncated or swapped argument changes the result.
+# Caller direction: ppci-compiled functions pass their parameters, reversed, to an imported function that ctypes
+# implements as a conforming callee (a Python callback), and return what it returns.
+_CT = {"char": (8, False), "short": (16, False), "int": (32, False), "long": (64, False), "float": (None, True), "double": (None, True)}
+
+
+def _gen_exec_sigs(r, per_n, nmax=12):
+    sigs = []
+    for n in range(0, nmax + 1):
+        for _ in range(per_n):
+            p = r.random()
+            pool = list(_CT) if p < 0.6 else (["long", "int", "char", "short"] if p < 0.8 else ["double", "float", "long"])
+            sigs.append([r.choice(pool) for _ in range(n)])
+    return sigs
+
+
+def _callee_source(sigs):
+    out = []
+    for k, sig in enumerate(sigs):
+        ret = "double" if any(_CT[t][1] for t in sig) else "long"
+        params = ", ".join("%s a%d" % (t, i) for i, t in enumerate(sig)) or "void"
+
+        def term(i, t):
+            if ret == "double":
+                e = "a%d" % i if t == "double" else ("(double)a%d" % i if t in ("float", "long") else "(double)(long)a%d" % i)
+                return "%s * %d.0" % (e, i + 1)
+            return "%s * %d" % ("a%d" % i if t == "long" else "(long)a%d" % i, i + 1)
+        body = " + ".join(term(i, t) for i, t in enumerate(sig)) or ("0.0" if ret == "double" else "0")
+        out.append("%s f%d(%s) { return %s; }" % (ret, k, params, body))
+    return "\n".join(out) + "\n"
+
+
+def _arg_value(r, t):
+    bits, isf = _CT[t]
+    if isf:
+        return r.choice([0.0, 1.5, -2.25, 1024.0, 3.0, -0.5, 7.0, -64.0])
+    m = 1 << (min(bits, 40) - 1)          # keeps every weighted sum exact in a double
+    return r.choice([0, 1, -1, m - 1, -m, 5, -7, 100 % m, 77 % m])
+
+
+def _expected_sum(sig, args):
+    if any(_CT[t][1] for t in sig):
+        return float(sum(float(a) * (i + 1) for i, a in enumerate(args)))
+    s = sum(a * (i + 1) for i, a in enumerate(args)) & ((1 << 64) - 1)
+    return s - (1 << 64) if s >> 63 else s
+
+
+def _load(src, imports=None):
+    import ctypes
+    import io
+    from ppci import api
+    from ppci.utils import codepage
+    codepage.debug_type_name_mapping.setdefault("short", ctypes.c_short)      # the loader (not under test) lacks this entry
+    obj = api.cc(io.StringIO(src), "x86_64", debug=True)
+    return codepage.load_obj(obj, imports=imports)
+
+
+def _exec_callee(seed, per_n, calls):
+    r = random.Random(seed)
+    sigs = _gen_exec_sigs(r, per_n)
+    src = _callee_source(sigs)
+    ev, bad = 0, []
+    try:
+        m = _load(src)
+    except Exception as ex:
+        return 1, [{"name": "ppci compiles the generated callee functions", "input": {"kind": "exec-callee", "seed": seed, "per_n": per_n, "calls": calls},
+                    "observed": "raised %s: %s" % (type(ex).__name__, str(ex)[:120])}]
+    for k, sig in enumerate(sigs):
+        f = getattr(m, "f%d" % k)
+        for _ in range(calls):
+            args = [_arg_value(r, t) for t in sig]
+            ev += 1
+            got, want = f(*args), _expected_sum(sig, args)
+            if got != want and len(bad) < 3:
+                bad.append({"name": "ppci-compiled callee f(%s) called through libffi with %r returns the position-weighted sum" % (", ".join(sig), args),
+                            "input": {"kind": "exec-callee", "seed": seed, "per_n": per_n, "calls": calls}, "expected": repr(want), "observed": repr(got), "signature": sig, "args": args})
+    return ev, bad
+
+
+def _exec_caller(seed, count, calls):
+    from ppci import ir
+    r = random.Random(seed)
+    PY = {"int": ir.i32, "long": ir.i64, "float": ir.f32, "double": ir.f64}
+    sigs = [[r.choice(list(PY)) for _ in range(r.randint(0, 12))] for _ in range(count)]
+    seen = {}
+    lines, imports = [], {}
+    for k, sig in enumerate(sigs):
+        rsig = list(reversed(sig))
+        ret = "double" if any(_CT[t][1] for t in sig) else "long"
+        lines.append("%s ext%d(%s);" % (ret, k, ", ".join(rsig) or "void"))
+        lines.append("%s g%d(%s) { return ext%d(%s); }" % (ret, k, ", ".join("%s a%d" % (t, i) for i, t in enumerate(sig)) or "void", k,
+                                                            ", ".join("a%d" % i for i in reversed(range(len(sig))))))
+
+        def make(k, rsig, ret):
+            def cb(*a):
+                seen[k] = list(a)
+                return _expected_sum(rsig, list(a))
+            cb.__signature__ = __import__("inspect").Signature(
+                [__import__("inspect").Parameter("p%d" % i, __import__("inspect").Parameter.POSITIONAL_ONLY, annotation=PY[t]) for i, t in enumerate(rsig)],
+                return_annotation=PY[ret])
+            return cb
+        imports["ext%d" % k] = make(k, rsig, ret)
+    ev, bad = 0, []
+    try:
+        m = _load("\n".join(lines) + "\n", imports)
+    except Exception as ex:
+        return 1, [{"name": "ppci compiles the generated caller functions", "input": {"kind": "exec-caller", "seed": seed, "count": count, "calls": calls},
+                    "observed": "raised %s: %s" % (type(ex).__name__, str(ex)[:120])}]
+    for k, sig in enumerate(sigs):
+        g = getattr(m, "g%d" % k)
+        for _ in range(calls):
+            args = [_arg_value(r, t) for t in sig]
+            ev += 1
+            seen.pop(k, None)
+            got = g(*args)
+            want = _expected_sum(list(reversed(sig)), list(reversed(args)))
+            if (got != want or seen.get(k) != list(reversed(args))) and len(bad) < 3:
+                bad.append({"name": "ppci-compiled caller g(%s) passes %r reversed to a libffi callee and returns its result" % (", ".join(sig), args),
+                            "input": {"kind": "exec-caller", "seed": seed, "count": count, "calls": calls}, "expected": "%r received, %r returned" % (list(reversed(args)), want),
+                            "observed": "%r received, %r returned" % (seen.get(k), got), "signature": sig, "args": args})
+    return ev, bad
+
+
 def bounded(tier_name, rnd):
     nmax = 6 if tier_name == "quick" else 8
     jobs = []
@@ -239,8 +365,15 @@ def bounded(tier_name, rnd):
         for what in check_callee_saved([n1]):
             if len(vio) < 8:
                 vio.append({"name": what, "input": {"kind": "callee_saved", "used": [n1]}, "observed": what})
-    return {"evaluations": ev, "distinct_nontrivial": ev, "exhaustive": False,
-            "rule": "every signature of 0..%d parameters over %s (exhaustive) + %d seeded random signatures of 7..20 parameters over all 11 scalar IR types (seed %d); "
+    per_n, calls, count = (3, 6, 30) if tier_name == "quick" else (12, 12, 150)
+    e1, b1 = _exec_callee(4001, per_n, calls)
+    e2, b2 = _exec_caller(4002, count, calls)
+    ev += e1 + e2
+    vio += b1 + b2
+    return {"evaluations": ev, "distinct_nontrivial": ev, "exhaustive": False, "executed_calls": e1 + e2,
+            "rule": "(execution part: %d generated C functions of 0..12 char / short / int / long / float / double parameters compiled by ppci, loaded and called through libffi with %d argument "
+                    "vectors each; %d generated ppci-compiled callers that pass 0..12 int / long / float / double parameters, reversed, to a libffi callee)  " % (13 * per_n, calls, count) +
+                    "every signature of 0..%d parameters over %s (exhaustive) + %d seeded random signatures of 7..20 parameters over all 11 scalar IR types (seed %d); "
                     "every scalar return type; every single register of the register file as the only register a frame uses (callee-saved obligation); all cases distinct "
                     "by construction or drawn independently" % (nmax, TYPES, nrand, seed0),
             "bound": "exhaustive up to %d parameters; random up to 20" % nmax, "violations": vio,
@@ -249,6 +382,11 @@ def bounded(tier_name, rnd):
 
 
 def replay_bounded(inp):
+    if inp["kind"] in ("exec-callee", "exec-caller"):
+        ev, bad = (_exec_callee(inp["seed"], inp["per_n"], inp["calls"]) if inp["kind"] == "exec-callee" else _exec_caller(inp["seed"], inp["count"], inp["calls"]))
+        if bad:
+            return False, {k: v for k, v in bad[0].items() if k != "input"}
+        return True, {"case": inp, "observed": "every call returns the expected value"}
     if inp["kind"] == "signature":
         r = check_signature(tuple(inp["sig"])) or check_function_enter(tuple(inp["sig"]))
     elif inp["kind"] == "rv":
